@@ -44,6 +44,10 @@ class TimeoutDict(Generic[K, V]):
         self._items[key] = value
         self._accessed(key)
 
+    def pop(self, key, default=None):
+        """Remove an item (not counting as an access)"""
+        return self._items.pop(key, default)
+
     def _start_over(self):
         """Clear _recently_accessed, set the timeout"""
         self._timeout = asyncio.get_running_loop().call_later(self.timeout, self._tick)
